@@ -151,6 +151,14 @@ def rules(ctx, tab, tag=""):
             okn = all(pse.unit_variant(e["value"]) and pse.unit_variant(e["value"])[1] == "None" for e in r.state_stores) and not r.updates
             ctx.ob("R3" + tag, lab + "/no-timeline-state", okn and (len(r.state_stores) <= 1),
                    "without a timeline the state can only be set to None", site, trace_of(p), what="no-timeline-state")
+            # ... and it is set (and announced) exactly when it was something else: a row that stores None must have found the
+            # state different from None (otherwise every frame announces a change that did not happen), a row that leaves it
+            # must have found it None (otherwise an animator whose timeline was taken away keeps reporting Playing / Ended)
+            was_none = 1 if r.s0 == "None" else 0 if (r.s0 is not None or "None" in r.s0_excl) else None
+            ctx.ob("R3" + tag, lab + "/no-timeline-reset-iff-not-none", was_none is not None and (len(r.state_stores) == 1) == (was_none == 0),
+                   "without a timeline the state is reset to None exactly when it was not None (state was None: %s, stores: %d)"
+                   % ({1: "yes", 0: "no", None: "not tested"}[was_none], len(r.state_stores)), site, trace_of(p),
+                   what="no-timeline-reset-wrong")
         else:
             want_add = (r.final != "Ended")
             ctx.ob("R2" + tag, lab + "/time-iff-not-ended", (len(r.adds) == 1) == want_add and r.final is not None,
